@@ -67,7 +67,11 @@ def register(reg):
             ('after', 'undo_item = undo_info[n:n + undo_entry_len]'):
                 ['check("entries-consumed-from-the-end-one-per-restored-input", n == len(some_undo) - 24 * (self.g_put + 1) and '
                  'implies(n >= 0, undo_item == some_undo[len(some_undo) - 24 * (self.g_put + 1):len(some_undo) - 24 * self.g_put]))'],
-            ('after', 'put_utxo(bytes(txin.prev_hash) + pack_le_uint32(txin.prev_idx), undo_item)'): ['self.g_put = self.g_put + 1'],
+            ('after', 'put_utxo(bytes(txin.prev_hash) + pack_le_uint32(txin.prev_idx), undo_item)'):
+                ['check("restored-under-the-outpoint-the-input-spent", '
+                 'lookup(self.utxo_cache, txin.prev_hash + leu_enc(txin.prev_idx, 4)) == undo_item and '
+                 'implies(n >= 0, len(undo_item) == 24))',
+                 'self.g_put = self.g_put + 1'],
             ('before', 'self.db.flush_backup(self.flush_data(), self.touched)'):
                 ['check("state-moved-back-before-the-flush", self.state.height == old(self.state.height) - 1 and '
                  'self.state.tip == hdr_prev(block.header) and self.state.tx_count == old(self.state.tx_count) - len(block.g_txs) and '
